@@ -381,8 +381,15 @@ impl Prop for C19 {
             // Narrow relaxation under clock faults: once the wall clock has jumped after an endpoint's
             // entry was stored, wall-clock distances and the entry's (monotonic) lifetime disagree and
             // the model cannot know which reference the analyzer still holds: stop judging that endpoint.
+            // The relaxation is kept narrow: while the reference is younger (monotonic time) than the lifetime
+            // every entry is assumed to have, the analyzer certainly still holds it, so the statement applies
+            // with the wall-clock interval as observed — in particular an interval that the jump made negative
+            // is below 25 ms: nothing may be reported.
             if let (Some(j), Some(ri)) = (last_jump, ref_idx.get(&key)) {
-                if j > *ri && !matches!(model.get(&key), Some(St::Unknown)) {
+                let young = matches!(model.get(&key), Some(St::Ref { mono_ns, .. }) if clock::mono_ns().saturating_sub(*mono_ns) <= ENTRY_LIVES_AT_LEAST_NS);
+                if j > *ri && young {
+                    st.probe("endpoint_judged_across_clock_jump");
+                } else if j > *ri && matches!(model.get(&key), Some(St::Ref { .. })) {
                     st.probe("endpoint_unjudged_after_clock_jump");
                     model.insert(key, St::Unknown);
                 }
@@ -495,14 +502,6 @@ impl Prop for C19 {
                     let dms = now_ms - rms;
                     let raw = ts.wrapping_sub(rts) as f64 * 1000.0 / dms as f64;
                     let _ = rclient;
-                    // Narrow relaxation under clock faults: if the wall clock jumped after the reference
-                    // was stored, wall-clock distance and entry lifetime (monotonic) disagree; an estimate
-                    // may then be missing (never wrong). The endpoint is no longer judged.
-                    if last_jump.map(|j| j > *ref_idx.get(&key).unwrap_or(&0)).unwrap_or(false) {
-                        st.probe("missing_estimate_tolerated_after_clock_jump");
-                        model.insert(key, St::Unknown);
-                        continue;
-                    }
                     let key = if flips_exist { "role-heuristic-flips-within-one-direction".to_string() } else if dms > 30_000 { "gap-over-30s".to_string() } else { scn.kind.name().to_string() };
                     return Err(Violation::new("missing-estimate", key, format!("packet {}: steady {:.3} Hz over {} ms ({} ticks) from {}->{} but nothing reported; statement gives [{}]", i, raw, dms, ts.wrapping_sub(rts), crate::sut::endpoints_of(&p.seg.src), crate::sut::endpoints_of(&p.seg.dst), describe(&es[0]))));
                 }
